@@ -1,0 +1,7 @@
+//go:build !verif
+
+package server
+
+// verifYield marks a point where a verification build may perturb the schedule.
+// It does nothing (and is inlined away) in normal builds.
+func verifYield(site string) {}
